@@ -66,7 +66,7 @@ var (
 // occupant model follows the presence type whatever they are.
 func dress(r *rand.Rand, st *step) {
 	switch st.Op {
-	case "self", "self-unsolicited", "self-again", "other", "foreign":
+	case "self", "self-unsolicited", "self-again", "other", "foreign", "late-self":
 		st.Aff, st.Role = affiliations[r.Intn(len(affiliations))], roles[r.Intn(len(roles))]
 		if r.Intn(2) == 0 {
 			// the plausible ones more often
@@ -145,6 +145,24 @@ func (s *story) add(st step) {
 	s.steps = append(s.steps, st)
 }
 
+// late: after a call has returned (its context lives on: it is never
+// cancelled), the room sends a late or duplicate answer of the other kind with
+// the same id — an error after the success, a self-presence after the
+// refusal.  Nobody waits for it any more; the serve loop has to get past it,
+// which the barrier shows.
+func (s *story) late(label, kind string) {
+	if s.r.Intn(3) != 0 {
+		return
+	}
+	s.shape = append(s.shape, '+')
+	if kind == "error" {
+		s.add(step{Op: "late-error", Label: label, Cond: roomErrors[s.r.Intn(len(roomErrors))][1]})
+	} else {
+		s.add(step{Op: "late-self", Label: label})
+	}
+	s.add(step{Op: "barrier"})
+}
+
 func (s *story) launch(op string) string {
 	s.ncall++
 	s.nreq++
@@ -189,6 +207,7 @@ func (s *story) joinPhase(op string) (in bool) {
 			return false
 		}
 		s.add(step{Op: "await", Label: l, Must: true})
+		s.late(l, "error")
 		return true
 	case v < 10: // a self-presence that nobody asked for yet, then the join
 		s.shape = append(s.shape, 'E')
@@ -210,6 +229,7 @@ func (s *story) joinPhase(op string) (in bool) {
 		}
 		s.add(step{Op: "error", Label: l, Cond: roomErrors[r.Intn(len(roomErrors))][1]})
 		s.add(step{Op: "await", Label: l, Must: true})
+		s.late(l, "self")
 		return false
 	case v < 16: // the caller gives up
 		s.shape = append(s.shape, 'C')
@@ -344,6 +364,7 @@ func (s *story) inRoom() (stillIn bool) {
 		s.add(step{Op: "seen", Label: l})
 		s.add(step{Op: "unavail"})
 		s.add(step{Op: "await", Label: l, Must: true})
+		s.late(l, "error")
 		return false
 	case v < 5: // leave, the room answers with an error
 		s.shape = append(s.shape, 'l')
